@@ -67,7 +67,30 @@ def pairing(ctx, rule):
         ctx.ok(rule, "create-and-destroy", "-", "registries have an inserting and a removing entry point")
     else:
         ctx.fail(rule, "create-and-destroy", "-", "registries lack an inserting or a removing entry point: %s" % sorted(allops))
-    # fresh values on insert: a new Store / a new empty Vec
+    # fresh values on insert: a new Store / a new empty Vec (not an object taken from other long-lived state)
+    for (b, bi, t, key_, cid) in model.tls_sites:
+        if key_ not in regs or cid is None:
+            continue
+        cb = facts.bodies[cid]
+        csy = ctx.sym(cb)
+        root = ctx.cg.root_of[b.id]
+        for (ebi, et, rk, m) in U.receiver_events(ctx, cb):
+            if m == "insert" and et.get("cn", "").startswith("std::collections::HashMap::") and len(et["args"]) > 2:
+                v = S.strip_refs(csy.operand(et["args"][2]))
+                fresh = v[0] == "call" and v[1].endswith(("Vec::with_capacity", "Vec::new", "Store::new", "Default::default"))
+                if v[0] in ("local", "phi"):
+                    # a local built here: all its definitions must be constructor calls
+                    l = v[1]
+                    ds = cb.defs().get(l, [])
+                    fresh = bool(ds) and all(kind == "call" and (node.get("cn") or "").endswith(("Vec::with_capacity", "Vec::new", "Store::new"))
+                                             for kind, _, _, node in ds)
+                k2 = "fresh-value:%s:%s" % (root, key_.rsplit("::", 1)[-1])
+                if fresh:
+                    ctx.ok(rule, k2, where(cb, ebi, et), "%s inserts a freshly constructed value into %s" % (root, key_.rsplit("::", 1)[-1]), kind="S")
+                else:
+                    ctx.fail(rule, k2, where(cb, ebi, et), "%s inserts a value that is not freshly constructed into %s (%s): a re-created id "
+                             "does not start empty" % (root, key_.rsplit("::", 1)[-1], S.show(v, cb)[:80]),
+                             {"witness": "search on id A; destroy A; create B; read B's results before any search"}, kind="S")
     for root, d in sorted(per_root.items()):
         for reg_key, v in d.items():
             for (op, ko, wh, m) in v:
@@ -174,8 +197,25 @@ def buffer_rules(ctx, rule_c, rule_d, rule_f):
         clears = [bi for bi, t, m in evs if m == "clear"]
         pushes = [(bi, t) for bi, t, m in evs if m in ("push", "extend", "append", "extend_from_slice", "insert")]
         key = "clear-before-refill:%s" % root
-        if clears and pushes and all(any(cfg.dominates(c, p) for c in clears) for p, _ in pushes):
-            ctx.ok(rule_c, key, b.where(), "the result buffer is cleared before it is refilled on every path", nontrivial=True)
+        # the clear is on every path of the runner (and of the closures around it), not only before the pushes
+        always = bool(clears) and cfg.every_path_passes(0, clears)
+        outer = ctx.facts.bodies.get(b.parent)
+        while always and outer is not None and outer.kind in ("closure", "fn"):
+            ocfg = ctx.cfg(outer)
+            inner_calls = [bi for bi, t in outer.calls() if any(k == "closure" and p_ == (b.id if outer.id == b.parent else inner_id)
+                                                                  for k, p_ in t.get("callables", []))]
+            if not inner_calls or not ocfg.every_path_passes(0, inner_calls):
+                always = False
+            inner_id = outer.id
+            if outer.kind == "fn":
+                break
+            outer = ctx.facts.bodies.get(outer.parent)
+        if clears and pushes and all(any(cfg.dominates(c, p) for c in clears) for p, _ in pushes) and not always:
+            ctx.fail(rule_c, key + ":some-path-skips-clear", b.where(), "a path through the search runner returns without clearing the "
+                     "result buffer (early return / fast path): the buffer keeps the previous search's hits",
+                     {"witness": "search with hits; set_limit(id, 0) or clear the store; search again; read results"})
+        elif clears and pushes and all(any(cfg.dominates(c, p) for c in clears) for p, _ in pushes):
+            ctx.ok(rule_c, key, b.where(), "the result buffer is cleared on every path of the search runner, before it is refilled", nontrivial=True)
         else:
             ctx.fail(rule_c, key, b.where(), "the result buffer is refilled without being cleared first",
                      {"witness": "two searches in a row: the second result list still contains the first one's hits"})
@@ -196,6 +236,21 @@ def buffer_rules(ctx, rule_c, rule_d, rule_f):
                 src0, st0 = U.chain(cand)
                 if S.strip_refs(src0) == S.strip_refs(s_) or (isinstance(src0, tuple) and S.norm(src0) == S.norm(s_)):
                     whole = all(x[0] == "into_iter" for x in st0)
+            if whole and nx:
+                # the copy loop ends only when the search iterator is exhausted: from the `Some` arm every path to return
+                # goes back through the `None` arm of the same next()
+                nxb = None
+                for cbi, ct in b.calls():
+                    if (ct.get("cn") or "").endswith("Iterator::next") and S.strip_sites(S.strip_refs(sy.call_expr(ct, cbi))) == S.strip_sites(S.strip_refs(nx[0])):
+                        nxb = cbi
+                if nxb is not None:
+                    tg = b.blocks[nxb]["term"].get("target")
+                    sw = b.blocks[tg]["term"] if tg is not None else None
+                    if sw is not None and sw["k"] == "switch":
+                        some_t = [b_ for v_, b_ in sw["targets"] if v_ == 1]
+                        none_t = [b_ for v_, b_ in sw["targets"] if v_ == 0]
+                        if some_t and none_t and not cfg.every_path_passes(some_t[0], none_t):
+                            whole = False
             if not whole:
                 ctx.fail(rule_f, "refill-complete:%s" % root, where(b, p, t), "not every hit returned by Store::search is stored in the result "
                          "buffer (the iterator is cut or filtered between the search and the buffer)",
@@ -320,6 +375,8 @@ def run(ctx):
     buffer_rules(ctx, "R20.c", "R20.d", "R20.f")
     forwarders(ctx, "R20.g")
     create_sets_lang(ctx, "R20.g")
+    from . import r_state as RS
+    RS.memo_coherence(ctx, "R20.h")
     RB.forwarders(ctx, "R20.e")
     return info("R20.a: every entry point that inserts into / removes from one thread-local registry does the same to the other "
                 "under its own id parameter, inserts replace rather than keep entries; R20.b: the registry accessors look up their "
